@@ -1,6 +1,7 @@
 package props
 
 import (
+	"sync"
 	"encoding/json"
 	"fmt"
 	"sort"
@@ -505,6 +506,31 @@ func c02Check(e *xp.Node, src string, res *core.CaseResult) {
 	for run := 0; run < 3; run++ {
 		if !c02CheckRun(m, run, e, src, res) {
 			return
+		}
+	}
+	// ... and four evaluations at once, each on a context and a tree of its own: what an evaluation asks its
+	// tree for is its own affair (races as such are C06's subject; here it is the paths that must be right)
+	if len(src)%4 == 0 {
+		const G = 4
+		part := make([]core.CaseResult, G)
+		var wg sync.WaitGroup
+		for g := 0; g < G; g++ {
+			wg.Add(1)
+			go func(g int) {
+				defer wg.Done()
+				c02CheckRun(m, 3+g, e, src, &part[g])
+			}(g)
+		}
+		wg.Wait()
+		res.Ev("concurrent_evaluation_groups", 1)
+		for g := range part {
+			for _, f := range part[g].Fails {
+				f.Class = strings.Replace(f.Class, "C02/", "C02/concurrent-evaluations/", 1)
+				res.Fails = append(res.Fails, f)
+			}
+			for k, v := range part[g].Events {
+				res.Ev(k, v)
+			}
 		}
 	}
 }
